@@ -42,3 +42,9 @@ Definition mismatches_val (cs : list val_case) : list N :=
                         let '(wc, fc, ws) := obs in
                         let '(mwc, mfc, mws) := run_val (map of_x ds) (map (fun p => (fst p, of_x (snd p))) ls) (map (fun p => (expand (fst p), of_x (snd p))) fs) in
                         negb (rcls_eqb wc mwc && rcls_eqb fc mfc && list_eqb wound_eqb ws mws)) cs).
+
+(** pwr.AggregateWounds driven directly with synthetic marker sequences *)
+Definition agg_case := (N * Z * list wound * list wound)%type.
+Definition mismatches_agg (cs : list agg_case) : list N :=
+  map (fun c => let '(id, _, _, _) := c in id)
+      (filter (fun c => let '(_, m, i, o) := c in negb (list_eqb wound_eqb (aggregate m None i) o)) cs).
